@@ -210,7 +210,7 @@ theorem fdtEntry_all (I : ObjIface σ) (P : FdtRecv σ → Prop) (s : State σ) 
 theorem pushFdtObj_all (I : ObjIface σ) (P : FdtRecv σ → Prop) (s s' : State σ) (p : Pkt) (now : Int)
     (ans : FdtAns) (r : Res) (evs : List Ev)
     (hnew : ∀ id, p.fdtId = some id → P (FdtRecv.new I id s.cfg.expCheck))
-    (hpush : ∀ f, P f → P (f.push I p now ans))
+    (hpush : ∀ id, p.fdtId = some id → ∀ f, P f → P (f.push I p now ans))
     (hupd : ∀ f f', P f → f.updateExpired now = .ok f' → P f')
     (h : pushFdtObj I s p now ans = .ok (s', r, evs)) (hall : AllFdt P s) :
     AllFdt P s' ∧ s'.cfg = s.cfg := by
@@ -237,8 +237,8 @@ theorem pushFdtObj_all (I : ObjIface σ) (P : FdtRecv σ → Prop) (s s' : State
         · rename_i f hupd'
           have hPf : P f := by
             split at hupd'
-            · exact hupd _ _ (hpush _ he.2.1) hupd'
-            · injection hupd' with hupd'; subst hupd'; exact hpush _ he.2.1
+            · exact hupd _ _ (hpush id hid _ he.2.1) hupd'
+            · injection hupd' with hupd'; subst hupd'; exact hpush id hid _ he.2.1
           have := fdtDispatch_all I P _ s' id f now r evs h
             (⟨he.1.1, by
               intro kf hkf
@@ -323,7 +323,8 @@ theorem cleanup_all (I : ObjIface σ) (P : FdtRecv σ → Prop) (s s' : State σ
 theorem step_all (I : ObjIface σ) (P : FdtRecv σ → Prop) (s s' : State σ) (op : Op) (r : Res)
     (evs : List Ev)
     (hnew : ∀ p now ans id, op = .data (.pkt p) now ans → p.fdtId = some id → P (FdtRecv.new I id s.cfg.expCheck))
-    (hpush : ∀ p now ans, op = .data (.pkt p) now ans → ∀ f, P f → P (f.push I p now ans))
+    (hpush : ∀ p now ans, op = .data (.pkt p) now ans → p.toi = 0 → ∀ id, p.fdtId = some id →
+      ∀ f, P f → P (f.push I p now ans))
     (hupd : ∀ f f', P f → f.updateExpired op.now = .ok f' → P f')
     (h : step I s op = .ok (s', r, evs)) (hall : AllFdt P s) : AllFdt P s' ∧ s'.cfg = s.cfg := by
   cases op with
@@ -342,9 +343,10 @@ theorem step_all (I : ObjIface σ) (P : FdtRecv σ → Prop) (s s' : State σ) (
       have hall' : AllFdt P (if p.closeSession then { s with closedImminent := true } else s) := by
         split <;> exact hall
       split at h
-      · have := pushFdtObj_all I P _ s' p now ans r evs
+      · rename_i htoi
+        have := pushFdtObj_all I P _ s' p now ans r evs
           (fun id hid => by rw [hcfg]; exact hnew p now ans id rfl hid)
-          (hpush p now ans rfl) hupd h hall'
+          (hpush p now ans rfl htoi) hupd h hall'
         exact ⟨this.1, by rw [this.2, hcfg]⟩
       · have := pushObj_all I P _ s' p now r evs hupd h hall'
         exact ⟨this.1, by rw [this.2, hcfg]⟩
